@@ -527,7 +527,7 @@ void h_fop(void)
 #endif
 }
 
-/* ---- C03.slice.<kind>.int: builtin_array_slice against the transcription of the compiled nl_array_slice ----
+/* ---- C03.slice.<kind>.int: builtin_array_slice against the documented (start, length) semantics, saturating ----
  * B(capacity <= VERIF_SLICE_CAP): the copy loop runs once per element; start and length are arbitrary int64. */
 #ifndef VERIF_SLICE_CAP
 #define VERIF_SLICE_CAP 5
@@ -564,7 +564,7 @@ void h_slice(void)
         __CPROVER_assert(0 <= s && s <= in_len && n == (l < in_len - s ? l : in_len - s), "C03.slice spec sanity: clamped start, count = min(length, len - start)");
 #else
         __CPROVER_assume(l > INT64_MAX - s);
-        __CPROVER_assert(n == 0, "C03.slice spec sanity: on the wrapping domain the compiled program yields an empty slice");
+        __CPROVER_assert(n == in_len - s, "C03.slice spec sanity: a length reaching past INT64_MAX means the rest of the array");
 #endif
     }
     /* ghost element: its expected value is read BEFORE the call */
@@ -574,12 +574,12 @@ void h_slice(void)
     __CPROVER_assert(!__verif_ev.exited && !__verif_ev.aborted, "C03.slice unreachable: path ends do not return");
 #if VERIF_AK == AK_ARRAY
     __CPROVER_assert(r.type == VAL_ARRAY && EV_PLAIN(r) && r.as.array_val != NULL && r.as.array_val->element_type == VAL_INT, "C03.slice yields an int array");
-    __CPROVER_assert(r.as.array_val->length == n, "C03.slice result length == compiled program's length");
+    __CPROVER_assert(r.as.array_val->length == n, "C03.slice result length == min(length, len - start)");
     if (k_in) __CPROVER_assert(((long long *)r.as.array_val->data)[in_k] == want, "C03.slice result element k == source element start + k");
     __CPROVER_assert(g_arr.length == in_len, "C03.slice the source array keeps its length");
 #else
     __CPROVER_assert(r.type == VAL_DYN_ARRAY && EV_PLAIN(r) && r.as.dyn_array_val != NULL && r.as.dyn_array_val->elem_type == ELEM_INT, "C03.slice yields an int array");
-    __CPROVER_assert(r.as.dyn_array_val->length == n, "C03.slice result length == compiled program's length");
+    __CPROVER_assert(r.as.dyn_array_val->length == n, "C03.slice result length == min(length, len - start)");
     if (k_in) __CPROVER_assert(((int64_t *)r.as.dyn_array_val->data)[in_k] == want, "C03.slice result element k == source element start + k");
     __CPROVER_assert(g_dyn.length == in_len, "C03.slice the source array keeps its length");
 #endif
